@@ -11,6 +11,7 @@ import (
 
 func main() {
 	r := vlib.Start("C08", "exploration")
+	r.ScaleQuick(2) // quick tier: 2x the case counts written at the sections (still well under a minute)
 	r.Rule("seeded scenes (integer/dyadic grids with axis-aligned triangles = flat boxes, many objects with identical bounds, duplicates, single and empty sets, closed box surfaces, icospheres, random general position; 1..20000 objects) and queries aimed at box faces/corners, along axes with zero components, starting on box faces, with radii equal to exact box distances, k >= n; each query is answered by the index and by a linear scan with the library's per-object routine; a query is non-trivial if the linear scan finds >= 2 hits (rays) or the set has >= 3 objects (distance / neighbour queries); distinct by hash of scene kind, size and query coordinates")
 	r.Assume("the per-object routines (Triangle/Segment ray, ball, segment, rect, triangle, Closest; Coord.SquaredDist) are the reference: C06/C07 check them, C08 only checks that the index adds or loses nothing")
 	r.Assume("a lost hit is a violation only if the query passes the lost object's own bounding box robustly (each comparison of the slab / distance test holds with relative margin 1e-9, or non-strictly between exactly computed quantities); otherwise it is counted undecided")
